@@ -16,6 +16,10 @@ import (
 // with their values.
 func apiOf(pkg *types.Package) map[string]string {
 	qual := func(p *types.Package) string { return p.Path() }
+	// signatures and types are printed in canonical form: parameter and result
+	// names are not part of the API, byte/uint8 and rune/int32 are one type,
+	// aliases are resolved
+	typeString := func(t types.Type) string { return types.TypeString(canonType(t, 0), qual) }
 	out := map[string]string{}
 	sc := pkg.Scope()
 	for _, name := range sc.Names() {
@@ -25,14 +29,14 @@ func apiOf(pkg *types.Package) map[string]string {
 		}
 		switch o := obj.(type) {
 		case *types.Const:
-			out[name] = "const " + name + " " + types.TypeString(o.Type(), qual) + " = " + o.Val().ExactString()
+			out[name] = "const " + name + " " + typeString(o.Type()) + " = " + o.Val().ExactString()
 		case *types.Var:
-			out[name] = "var " + name + " " + types.TypeString(o.Type(), qual)
+			out[name] = "var " + name + " " + typeString(o.Type())
 		case *types.Func:
-			out[name] = "func " + name + strings.TrimPrefix(types.TypeString(o.Type(), qual), "func")
+			out[name] = "func " + name + strings.TrimPrefix(typeString(o.Type()), "func")
 		case *types.TypeName:
 			if o.IsAlias() {
-				out[name] = "type " + name + " = " + types.TypeString(types.Unalias(o.Type()), qual)
+				out[name] = "type " + name + " = " + typeString(types.Unalias(o.Type()))
 				continue
 			}
 			named, _ := o.Type().(*types.Named)
@@ -49,13 +53,13 @@ func apiOf(pkg *types.Package) map[string]string {
 				for i := 0; i < u.NumFields(); i++ {
 					f := u.Field(i)
 					if f.Exported() {
-						out[name+"."+f.Name()] = "field " + name + "." + f.Name() + " " + types.TypeString(f.Type(), qual)
+						out[name+"."+f.Name()] = "field " + name + "." + f.Name() + " " + typeString(f.Type())
 					}
 				}
 			case *types.Interface:
-				out[name] = "type " + name + " " + types.TypeString(u, qual)
+				out[name] = "type " + name + " " + typeString(u)
 			default:
-				out[name] = "type " + name + " " + types.TypeString(u, qual)
+				out[name] = "type " + name + " " + typeString(u)
 			}
 			for _, t := range []types.Type{named, types.NewPointer(named)} {
 				ms := types.NewMethodSet(t)
@@ -73,12 +77,78 @@ func apiOf(pkg *types.Package) map[string]string {
 						recv = "*" + name
 					}
 					key := "(" + recv + ")." + m.Obj().Name()
-					out[key] = "method " + key + strings.TrimPrefix(types.TypeString(m.Type(), qual), "func")
+					out[key] = "method " + key + strings.TrimPrefix(typeString(m.Type()), "func")
 				}
 			}
 		}
 	}
 	return out
+}
+
+// canonType rebuilds t without the spellings that are not part of the API:
+// names of parameters and results, the universe aliases byte and rune, and
+// declared aliases.  Named types stay themselves (they are printed with their
+// package path).
+func canonType(t types.Type, depth int) types.Type {
+	if depth > 12 || t == nil {
+		return t
+	}
+	switch u := t.(type) {
+	case *types.Alias:
+		return canonType(types.Unalias(u), depth+1)
+	case *types.Basic:
+		if int(u.Kind()) < len(types.Typ) && types.Typ[u.Kind()] != nil {
+			return types.Typ[u.Kind()] // byte -> uint8, rune -> int32
+		}
+		return u
+	case *types.Pointer:
+		return types.NewPointer(canonType(u.Elem(), depth+1))
+	case *types.Slice:
+		return types.NewSlice(canonType(u.Elem(), depth+1))
+	case *types.Array:
+		return types.NewArray(canonType(u.Elem(), depth+1), u.Len())
+	case *types.Map:
+		return types.NewMap(canonType(u.Key(), depth+1), canonType(u.Elem(), depth+1))
+	case *types.Chan:
+		return types.NewChan(u.Dir(), canonType(u.Elem(), depth+1))
+	case *types.Tuple:
+		return canonTuple(u, depth)
+	case *types.Signature:
+		return types.NewSignatureType(nil, nil, nil, canonTuple(u.Params(), depth), canonTuple(u.Results(), depth), u.Variadic())
+	case *types.Struct:
+		fields := make([]*types.Var, u.NumFields())
+		tags := make([]string, u.NumFields())
+		for i := 0; i < u.NumFields(); i++ {
+			f := u.Field(i)
+			fields[i] = types.NewField(f.Pos(), f.Pkg(), f.Name(), canonType(f.Type(), depth+1), f.Embedded())
+			tags[i] = u.Tag(i)
+		}
+		return types.NewStruct(fields, tags)
+	case *types.Interface:
+		if u.NumEmbeddeds() > 0 {
+			return u
+		}
+		ms := make([]*types.Func, u.NumExplicitMethods())
+		for i := range ms {
+			m := u.ExplicitMethod(i)
+			sig, _ := canonType(m.Type(), depth+1).(*types.Signature)
+			ms[i] = types.NewFunc(m.Pos(), m.Pkg(), m.Name(), sig)
+		}
+		return types.NewInterfaceType(ms, nil).Complete()
+	}
+	return t
+}
+
+func canonTuple(tp *types.Tuple, depth int) *types.Tuple {
+	if tp == nil || tp.Len() == 0 {
+		return nil
+	}
+	vars := make([]*types.Var, tp.Len())
+	for i := range vars {
+		v := tp.At(i)
+		vars[i] = types.NewParam(v.Pos(), v.Pkg(), "", canonType(v.Type(), depth+1))
+	}
+	return types.NewTuple(vars...)
 }
 
 // isInternalRel reports whether a module-relative package path is internal.
@@ -135,6 +205,12 @@ func CheckAPI(run *report.Run, progs map[string]*load.Program, ruleID string) []
 		for _, rel := range sortedKeys(rels) {
 			a, b := rp.ByRel[rel], p.ByRel[rel]
 			if a == nil || b == nil {
+				if isInternalRel(rel) {
+					// not user visible; an importer that needed it would not compile
+					ru.OKN(rel, 1)
+					info = append(info, APIDiff{rel, "(package)", ref + ": " + map[bool]string{true: "present", false: "(absent)"}[a != nil], id + ": " + map[bool]string{true: "present", false: "(absent)"}[b != nil]})
+					continue
+				}
 				ru.Failf("-", rel, "package exists in only one of the configurations %s, %s", ref, id)
 				continue
 			}
